@@ -68,11 +68,23 @@ def st_names_case(draw):
             continue
         names.append(n)
         low.add(n.lower())
+    near = draw(st.integers(0, 3)) == 0
+    if near:
+        # names that differ only by surrounding white space, letter case, or by being a prefix / suffix of one another
+        base = draw(st.sampled_from(['name', 'id', 'Key', 'x1', 'val_2']))
+        variants = [' ' + base, base + ' ', '\t' + base, base.upper(), base.lower(), base.title(), base + '_', '_' + base, base + base, base[:-1], base + '1', ' ' + base + ' ', base.swapcase()]
+        picked = draw(st.lists(st.sampled_from(variants), min_size=1, max_size=4, unique=True))
+        names = [base] + [v for v in picked if v != base]
+        names = draw(st.permutations(names))
+        low = set()
+        names = [n for n in names if not (n.lower() in low or low.add(n.lower()))] if draw(st.booleans()) else list(names)
     w = len(names)
     nrows = draw(st.integers(0, 4))
     rows = [['r%dc%d' % (i + 1, j + 1) for j in range(w)] for i in range(nrows)]
     pos = draw(st.integers(0, w - 1))
     backend = draw(st.sampled_from(['list', 'list', 'csv', 'csv', 'pandas', 'sqlite']))
+    if near and len(set(n.lower() for n in names)) != len(names) and backend == 'sqlite':
+        backend = 'list'    # sqlite column names must be distinct case-insensitively
     spell = draw(st.sampled_from(['a["n"]', "a['n']", 'a.n']))
     if spell == 'a.n' and not qgen.is_attr_name(names[pos]):
         spell = draw(st.sampled_from(['a["n"]', "a['n']"]))
